@@ -328,6 +328,15 @@ def bounded(tier, seed):
             for b in ("", "x", sep + sep):
                 R.expect("bounded:replace-every-non-overlapping-occurrence-left-to-right",
                          f"String->replace({ls}, {lsep}, {lit(b)})", lambda r: r == s.replace(sep, b), "host str.replace")
+    # "on all strings": many occurrences, replacements containing the pattern, overlapping candidates, a start offset
+    for s, a, b in (("a" * 3000, "a", "bb"), ("ab" * 1500, "ab", ""), ("aaa" * 700, "aa", "a"), ("x" + "||" * 1200, "|", "||"), ("abc" * 800, "bc", "bcbc")):
+        R.expect("bounded:replace-every-non-overlapping-occurrence-left-to-right", f"String->replace({lit(s)}, {lit(a)}, {lit(b)})",
+                 lambda r: r == s.replace(a, b), f"host str.replace ({s.count(a)} occurrences)")
+    for s in ("abcabcabc", "aaaa", "xaxa"):
+        for a in ("a", "abc", "aa"):
+            for st in range(0, len(s) + 2):
+                R.expect("bounded:replace-from-a-start-index", f"String->replace({lit(s)}, {lit(a)}, 'Z', start = {st})",
+                         lambda r: r == s[:st] + s[st:].replace(a, "Z"), "occurrences at or after start replaced, the text before start unchanged")
     # interpolation
     fmts = [("a{x}b", "a12b"), ("{x#5}", "   12"), ("{x#-5}|", "12   |"), ("{x#05}", "00012"), ("{y#.2}", "3.14"), ("{x#x}", "c"),
             ("no placeholder {", "no placeholder {"), ("{s}", "it's"), ("{x}{x}", "1212"), ("{x + 1}", "13"), ("}{x}{", "}12{"),
